@@ -71,10 +71,10 @@ ValidNewView(m, n, h) ==
   /\ IsQuorum(h, {m.votes[i].s : i \in GoodVotes(m, h)})
   /\ m.pp.ht = "PP" /\ m.pp.inst = 0 /\ m.pp.h = h /\ m.pp.v = m.v
   /\ m.pp.sig /\ m.pp.s = m.s
-  /\ m.bok                                              \* the attached block is the one the proposal header commits to
   /\ LET pv == ProvenVotes(m, h) IN
-       IF pv # {} THEN \E i \in pv : (\A j \in pv : m.votes[j].proof.ppv <= m.votes[i].proof.ppv) /\ m.pp.x = m.votes[i].proof.ppx
-       ELSE (\A i \in GoodVotes(m, h) : ~m.votes[i].proof.has) /\ n \in SeqToSet(m.okfor)
+       IF pv # {} THEN /\ \E i \in pv : (\A j \in pv : m.votes[j].proof.ppv <= m.votes[i].proof.ppv) /\ m.pp.x = m.votes[i].proof.ppx
+                       /\ m.bok                           \* the attached block is the certified one
+       ELSE (\A i \in GoodVotes(m, h) : ~m.votes[i].proof.has) /\ n \in SeqToSet(m.okfor)   \* fresh: whatever n's consumer validated
 
 (* C08: is message m (kind PP, P, C or VC) one that may influence node n in state ns?         *)
 AuthenticFor(m, n, ns) ==
